@@ -29,8 +29,8 @@ LEVEL_NOTE = "trusted: boundary capture of getdata messages, the harness' mempoo
 
 def runs(tier, seed):
     if tier == "thorough":
-        return [Run("net_malleate", cases=4800, timeout=3000)]
-    return [Run("net_malleate", cases=160, timeout=900)]
+        return [Run("net_malleate", cases=1280, timeout=20000)]
+    return [Run("net_malleate", cases=160, timeout=7200)]
 
 
 def check(rec, st):
